@@ -94,7 +94,7 @@ void harness_leadin_drained(void)
 	(void) lha_input_stream_read(&st, b22, 22);
 	src_ret = 0;
 	(void) lha_input_stream_read(&st, b2, 2);
-	CHECK(st.leadin_len == 0, "C16: after the smallest possible header (24 bytes) has been read the lead-in buffer is empty, so skipping member data cannot replay stale bytes");
+	CHECK(st.leadin_len == 0, "C15/C16: after the smallest possible header (24 bytes) has been read the lead-in buffer is empty, so skipping member data cannot replay stale bytes");
 	if (len0 == sizeof(st.leadin)) WITNESS("buffer was full");
 	WITNESS("end");
 }
